@@ -772,7 +772,7 @@ func vHoleFilledLater(s *vtraffic.Scenario, plan *vPlan) bool {
 	seen := map[string]bool{}
 	for _, b := range plan.Batches {
 		imported = append(imported, b...)
-		h := vHoles(s, imported)
+		h := vGaps(s, imported)
 		for k := range seen {
 			if !h[k] {
 				return true
@@ -783,6 +783,30 @@ func vHoleFilledLater(s *vtraffic.Scenario, plan *vPlan) bool {
 		}
 	}
 	return false
+}
+
+// vGaps identifies every silence of (nearly) the importer's idle timeout inside a conversation, looking only at the
+// given captures, by the conversation and the two packets around it: a conversation can have several, and one of
+// them may be filled by a later capture while another one stays.
+func vGaps(s *vtraffic.Scenario, caps []int) map[string]bool {
+	in := map[int]bool{}
+	for _, c := range caps {
+		in[c] = true
+	}
+	out := map[string]bool{}
+	for _, c := range s.Conversations {
+		last := int64(-1)
+		for _, p := range c.Packets() {
+			if !in[p.Capture] {
+				continue
+			}
+			if last >= 0 && p.TimeUS-last >= (5*60-2)*1000000 {
+				out[fmt.Sprintf("%s %d-%d", c.Key(), last, p.TimeUS)] = true
+			}
+			last = p.TimeUS
+		}
+	}
+	return out
 }
 
 func TestVerifC05(t *testing.T) {
